@@ -226,6 +226,59 @@ def oracle(err, req, evs, status):
     if any(e.startswith("eh ") or e.startswith("observer ") for e in evs[:fails[0]]):
         return "an error handler / observer ran before anything failed"
     last_status = None
+    # what the route's own pipeline needs on its happy path
+    happy = set(dep.get("h%d" % req["route"], set()))
+    for mid in rinfo["chain"]:
+        happy |= dep.get("m%d" % mid, set())
+    only_for_errors = set()
+    for k2, v in dep.items():
+        if k2[0] in "xo":
+            only_for_errors |= v
+    only_for_errors -= happy
+    failed = [evs[i].split()[1] for i in fails]
+    desig = {x: designated(err, x[0], int(x[1:])) for x in failed}
+
+    def handler_deps(x):
+        return dep.get("x%d" % desig[x][1], set()) if desig[x][0] == "x" else set()
+    nested = [x for x in failed if any(y != x and y[0] == "c" and int(y[1:]) in handler_deps(x) for y in failed)]
+    swallowable = [x for x in failed if x[0] == "c" and int(x[1:]) in only_for_errors]
+    if nested or swallowable:
+        # failures on the error path itself: a value only an error handler / observer needs fails, or the input
+        # of the handler of a failed component fails too. The strict reading below does not apply; check what
+        # must hold anyway, and name the known finding when an error was dropped without anybody looking at it.
+        for i in fails:
+            x = evs[i].split()[1]
+            if x[0] == "c":
+                cid = int(x[1:])
+                bad = [e for e in evs[i + 1:] if e.split()[0] not in ("wrap-end", "early") and (cid in dep.get(e.split()[1], set()) or e == "ctor " + x)]
+                if bad:
+                    return "`%s` ran after `fail %s` although it depends on its Ok value" % (bad[0], x)
+        ran = [e.split()[1] for e in evs if e.startswith("eh ")]
+        for h in ran:
+            if not any(desig[x] == ("x", int(h[1:])) for x in failed):
+                return "error handler %s ran, but it is not the designated handler of anything that failed (%s)" % (h, failed)
+        so = [e.split()[1] for e in evs if e.startswith("observer ")]
+        groups = 0
+        if obs:
+            if len(so) % len(obs) or so != obs * (len(so) // len(obs)):
+                return "the observers that ran are %s: not whole rounds of %s" % (so, obs)
+            groups = len(so) // len(obs)
+            if groups > len(failed):
+                return "more rounds of observers (%d) than failures (%d)" % (groups, len(failed))
+        allowed = {stat[d[1]] if d[0] == "x" else 500 for d in desig.values()}
+        if len(swallowable) == len(failed) or not obs or groups == 0:
+            allowed |= {200, 202}
+        if status not in allowed:
+            return "the client saw status %d, none of the possible responses %s" % (status, sorted(allowed))
+        handled = groups if obs else len(ran)
+        if obs and handled < len(failed) - len(nested):
+            unexplained = len(failed) - len(nested) - handled
+            if unexplained > len(swallowable):
+                return "%d failure(s) among %s were neither handled nor observed" % (unexplained, failed)
+            return "SWALLOWED-SPECULATIVE-FAILURE: among %s, %d failure(s) of values built ahead of the error arm that needs them (%s) were never inspected: no error handler and no observer ran for them" % (failed, unexplained, swallowable)
+        if not obs and swallowable and status in (200, 202):
+            return "SWALLOWED-SPECULATIVE-FAILURE: %s returned Err while being built ahead of the error arm that needs it; the arm was not entered and the request was served normally" % swallowable
+        return None
     for n, i in enumerate(fails):
         x = evs[i].split()[1]
         seg = evs[i + 1:(fails[n + 1] if n + 1 < len(fails) else len(evs))]
@@ -246,14 +299,6 @@ def oracle(err, req, evs, status):
         d = designated(err, x[0], int(x[1:]))
         ehs = [e for e in seg if e.startswith("eh ")]
         want = ["eh x%d" % d[1]] if d[0] == "x" else []
-        if d[0] == "x" and n + 1 < len(fails) and not ehs:
-            y = evs[fails[n + 1]].split()[1]
-            if y[0] == "c" and int(y[1:]) in dep.get("x%d" % d[1], set()):
-                # what the handler itself needs failed: the handler cannot run; the inner error is the one
-                # that is handled and observed (out of the property's class: recorded, not judged)
-                if any(e.startswith("observer ") for e in seg):
-                    return "observers ran for `%s` although its handler could not be built" % x
-                continue
         if ehs != want:
             return "after `fail %s` the error handlers that ran are %s, expected %s" % (x, ehs, want)
         last_status = stat[d[1]] if d[0] == "x" else 500
@@ -277,7 +322,7 @@ def oracle(err, req, evs, status):
 def match_known(R, why, case):
     for f in R.known_findings():
         m = f.get("match", {})
-        if m.get("why_contains") and m["why_contains"] in why:
+        if isinstance(m, dict) and m.get("why_startswith") and why.startswith(m["why_startswith"]):
             return f
     return None
 
@@ -296,12 +341,16 @@ def run(R):
     lines, keys = [], []
     broken_tie = []
     rejected = []
+    env_rejects = []
     for name, o in sorted(obs.items()):
         # every application of the family follows the documented rules: pavexc must accept it and its SDK must compile
         if o.get("klass") != FAMILY:
             continue
         if o.get("timed_out"):
             broken_tie.append("%s: pavexc did not terminate within the time limit (%.0fs; machine load?)" % (name, o["secs"]))
+            continue
+        if o["rc"] != 0 and not o["panicked"] and "Failed to invoke `cargo metadata`" in o["out"]:
+            env_rejects.append(name)  # pavexc could not even start (cargo metadata failed: machine load); not a verdict
             continue
         if o["rc"] != 0 or o["panicked"] or not o.get("cargo_check", {}).get("ok"):
             msg = [l.strip() for l in o["out"].split("\n") if "panicked" in l or "did not" in l or "ERROR" in l][:3]
@@ -370,6 +419,11 @@ def run(R):
             hist["with_observers"] += 1 if any(e.startswith("observer ") for e in real) else 0
             hist["user_handler"] += 1 if any(e.startswith("eh ") for e in real) else 0
             hist["default_handler"] += 1 if nf and not any(e.startswith("eh ") for e in real) else 0
+            fidx = [i for i, e in enumerate(real) if e.startswith("fail ")]
+            hist["handler_input_failed_too"] = hist.get("handler_input_failed_too", 0) + (
+                1 if any(not any(e.startswith("eh ") or e.split()[0] in ("pre", "post", "handler", "wrap-start", "wrap-end") for e in real[a + 1:b])
+                         and designated(err, real[a].split()[1][0], int(real[a].split()[1][1:]))[0] == "x"
+                         for a, b in zip(fidx, fidx[1:])) else 0)
             why = oracle(err, req, real, status)
             case = {"program": name, "request": req, "observed": real, "status": status, "err": err}
             if why:
@@ -393,6 +447,10 @@ def run(R):
     R.log("servers=%d requests=%d nontrivial=%d oracle_failures=%d disagreements=%d %s" % (len(keys), n_eval, len(seen), len(fails), len(dis), hist))
     unknown = 0
     R.coverage["family_programs_rejected"] = len(rejected)
+    R.coverage["family_programs_not_compiled_for_environment_reasons"] = env_rejects
+    n_family = sum(1 for o in obs.values() if o.get("klass") == FAMILY)
+    if len(env_rejects) * 3 > n_family:
+        broken_tie.append("pavexc could not run `cargo metadata` for %d of the %d applications of the family (environment problem)" % (len(env_rejects), n_family))
     for rj in rejected:
         why = "pavexc %s an application whose error handlers / observers follow every documented rule: %s" % (
             "panicked on" if rj["panicked"] else ("rejected" if rj["rc"] != 0 else "generated code that does not compile for"), str(rj["message"])[:300])
